@@ -146,7 +146,7 @@ def main(tier):
     # clause (6) decides the rendering of every indent entry semantically; the table clause (4) below reads the guide-string helpers by today's private names
     # and is used only when (6) gives no verdict
     steps_decided = all(not [r for r in recs if r.get("step") not in DRIVER and r.get("step") != "driver-setup" and r.get("exit") == "undecided"]
-                        and [r for r in recs if r.get("step") == "setup" and r.get("exit") == "return" and not r["found"].get("other_write_items")]
+                        and [r for r in recs if r.get("step") == "setup" and r.get("exit") == "return" and not [k for k in (r["found"].get("other_write_items") or []) if not k.endswith("::write_char")]]
                         for recs in sdata.values()) and bool(sdata)
     if not steps_decided:
       try:
@@ -188,8 +188,9 @@ def main(tier):
         for r in pan:
             run.ob("steps", "%s/%s from (%s, %s): does not panic" % (r["step"], prof, r.get("line"), r.get("stack")), False,
                    key="steps|%s|may panic: %s" % (r["step"], e2props.panic_kind(r.get("msg"))), detail=r)
-        if setup and setup["found"].get("other_write_items"):
-            und = und + [{"msg": "the writer overrides %s, which this analysis does not follow" % setup["found"]["other_write_items"]}]
+        unfollowed = [k for k in (setup["found"].get("other_write_items") or []) if not k.endswith("::write_char")] if setup else []
+        if unfollowed:
+            und = und + [{"msg": "the writer overrides %s, which this analysis does not follow" % unfollowed}]
         if und:
             # an unmodelled construct: this clause gives no verdict on this tree (the structural clauses above still apply); recorded, never assumed fine
             run.extra.setdefault("undecided_clauses", []).append({"clause": "steps", "profile": prof, "reasons": sorted({(u.get("msg") or "")[:200] for u in und})})
